@@ -43,6 +43,10 @@ pub trait FieldAccessor {
     fn get_i64_at(&self, field: &str, index: usize) -> Option<i64>;
     fn get_u64_at(&self, field: &str, index: usize) -> Option<u64>;
     fn get_f64_at(&self, field: &str, index: usize) -> Option<f64>;
+    /// Typed boolean cell, for accessors over typed columns (which have no string view).
+    fn get_bool_at(&self, _field: &str, _index: usize) -> Option<bool> {
+        None
+    }
     fn event_count(&self) -> usize;
 }
 
@@ -256,6 +260,12 @@ impl<'a> FieldAccessor for PreparedAccessor<'a> {
         self.columns
             .get(field)
             .and_then(|col| col.get_f64_at(index))
+    }
+
+    fn get_bool_at(&self, field: &str, index: usize) -> Option<bool> {
+        self.columns
+            .get(field)
+            .and_then(|col| col.get_bool_at(index))
     }
 
     fn event_count(&self) -> usize {
@@ -503,6 +513,14 @@ impl Condition for StringCondition {
                     // IN operation should use InStringCondition, not StringCondition
                     unreachable!("IN operation should not be used with StringCondition")
                 }
+                _ => false,
+            }
+        } else if let Some(cell) = accessor.get_bool_at(&self.field, index) {
+            // A typed bool column has no string view; `true` / `false` literals arrive as text.
+            let text = if cell { "true" } else { "false" };
+            match self.operation {
+                CompareOp::Eq => text == self.value,
+                CompareOp::Neq => text != self.value,
                 _ => false,
             }
         } else {
